@@ -338,6 +338,13 @@ def run(ctx):
                 cc.setdefault(sg.split("::")[-1], []).append([pathx.desc(a) for a in nd["a"]])
         ctx.require(cc.get("pathset") == [["config", "Clone::clone(args.filtering.paths)"]], "R13.10", "cli-pathset", "the configured path set is the command line's list of paths", mk.loc(mk.line),
                     detail=str(cc.get("pathset")), fail="make_config does not pass args.filtering.paths to Config::pathset (%s): nothing, or something else, is watched" % cc.get("pathset"))
+        miss13 = []
+        for q in pathx.Enum(interesting=lambda d_: strip_generics(d_).startswith("watchexec::config::Config::"), max_paths=200000).paths(thir.root(mk)):
+            if q.out in ("ret", "val") and (q.val or "").startswith("Ok{"):
+                nm = [strip_generics(e[1]).split("::")[-1] for e in q.ev if e[0] == "call"]
+                if "pathset" not in nm:
+                    miss13.append(nm)
+        ctx.require(not miss13, "R13.10", "cli-pathset-every-mode", "every configuration make_config returns has the path set configured", mk.loc(mk.line), detail=str(miss13)[:200])
         pw = [n for n in thir.find(thir.root(mk), "if") if isinstance(n["c"], dict) and n["c"].get("k") == "letx" and pathx.desc(n["c"]["e"]) == "args.events.poll"]
         okw = len(pw) == 1 and cc.get("file_watcher") == [["config", "Poll{0: interval.0}"]] and any(strip_generics(c).endswith("Config::file_watcher") for c, _ in thir.calls_in(pw[0]["t"])) \
             and "Some" in thir.pattern_variants(pw[0]["c"]["p"])
